@@ -37,16 +37,17 @@ package keeper
 //@ family pools    key types.GetPoolKey value types.Pool
 //@ family lptIndex key types.GetLptDenomKey value str
 //@ family nextSeq  key const:nextPoolSequence value uint64
-//@ family params   key const:params value types.Params
+//@ family prm      key const:params value types.Params
 //@ family stdDenom key global:types.KeyStandardDenom value str
 
 //@ define STD = ite(has(stdDenom), get(stdDenom), "")
-//@ define PARAMS = get(params)
+//@ define PARAMS = get(prm)
 //@ define paramsOK(p) = !isnil(p.Fee) && raw(p.Fee) > 0 && raw(p.Fee) < DEC_ONE
 //@      && !isnil(p.UnilateralLiquidityFee) && raw(p.UnilateralLiquidityFee) >= 0 && raw(p.UnilateralLiquidityFee) < DEC_ONE
 //@      && !isnil(p.TaxRate) && raw(p.TaxRate) > 0 && raw(p.TaxRate) < DEC_ONE && p.PoolCreationFee.Amount > 0
-//@ define paramsStored = has(params) && paramsOK(get(params))
-//@ define FEEF = DEC_ONE - raw(get(params).Fee)
+//@      && ufb("denom_valid", p.PoolCreationFee.Denom)
+//@ define paramsStored = has(prm) && paramsOK(get(prm))
+//@ define FEEF = DEC_ONE - raw(get(prm).Fee)
 //@ define poolAddrOf(p) = types.GetReservePoolAddr(p.LptDenom)
 //@ define poolOf(d) = get(pools, types.GetPoolId(d))
 //@ define hasPoolOf(d) = has(pools, types.GetPoolId(d))
@@ -464,4 +465,24 @@ package keeper
 //@   requires has(pools, types.GetPoolId(msg.CounterpartyDenom)) ==> poolWF(get(pools, types.GetPoolId(msg.CounterpartyDenom)), msg.CounterpartyDenom)
 //@   modifies bal, supply
 //@   ensures deadline: err == nil ==> time <= msg.Deadline * 1000000000
+//@ end
+
+// ---------------------------------------------------------------------------------------------
+// Parameters (C16): stored only when valid, changed only by the authority
+
+//@ func Keeper.SetParams
+//@   property C16
+//@   returns err
+//@   modifies prm
+//@   ensures stored:   err == nil ==> has(prm) && get(prm) == params && paramsOK(params)
+//@   ensures rejected: err != nil ==> prm == old(prm)
+//@ end
+
+//@ func msgServer.UpdateParams
+//@   property C16
+//@   returns resp, err
+//@   modifies prm
+//@   ensures authority: err == nil ==> msg.Authority == m.k.authority
+//@   ensures stored:    err == nil ==> has(prm) && get(prm) == msg.Params && paramsOK(msg.Params)
+//@   ensures rejected:  err != nil ==> prm == old(prm)
 //@ end
